@@ -93,6 +93,10 @@ class Engine(ExprMixin, CallMixin, StmtMixin):
         self.classes[name] = d
         return d
 
+    def objT(self, cname):
+        d = self.classes.get(cname)
+        return T.ObjT(cname, root=d.root if d is not None else None)
+
     def ghost(self, name, ty):
         self.ghost_decl[name] = ty
 
@@ -132,7 +136,7 @@ class Engine(ExprMixin, CallMixin, StmtMixin):
         st = State()
         for cname, decl in self.classes.items():
             for f, fty in decl.fields.items():
-                arr = z3.FreshConst(z3.ArraySort(T.ObjT(cname).sort(), fty.sort()), f"{cname}.{f}")
+                arr = z3.FreshConst(z3.ArraySort(self.objT(cname).sort(), fty.sort()), f"{cname}.{f}")
                 st = self.assume_heap_inv(st.set_heap((cname, f), arr), cname, f, fty)
         for g, gty in self.ghost_decl.items():
             v, st = self.fresh(gty, g, st)
@@ -306,7 +310,7 @@ class Engine(ExprMixin, CallMixin, StmtMixin):
             a0 = entry.heap[hk]
             if arr.eq(a0) or hk in whole:
                 continue
-            o = T.ObjT(hk[0]).fresh("o")
+            o = self.objT(hk[0]).fresh("o")
             if hk in locs:
                 goal = z3.ForAll([o], z3.Implies(z3.And(*[o != b for b in locs[hk]]),
                                                  z3.Select(arr, o) == z3.Select(a0, o)))
